@@ -353,6 +353,24 @@ type c06Paste struct {
 // c06PasteCheck: when scanning and the macro checks pass, the tree after
 // expansion must be the reference resolution of the expanded token sequence.
 func c06PasteCheck(c c06Paste, info *vlib.Info) (f *vlib.Failure) {
+	// the macro body must be self-contained: a ')' that closes the MACRO's own
+	// parenthesis early would leave the rest of "the body" at the top level
+	depth := 0
+	for _, t := range c.Body {
+		if t.K < 0 {
+			depth--
+		} else if t.X {
+			depth++
+		}
+		if depth < 0 {
+			info.Class("paste-pass:body-not-self-contained")
+			return nil
+		}
+	}
+	if depth != 0 {
+		info.Class("paste-pass:body-not-self-contained")
+		return nil
+	}
 	// render: host (PASTE @mac at the marked place), then MACRO @mac ( body )
 	var sb strings.Builder
 	var hostIdx []int
